@@ -8,7 +8,7 @@ MUT = "/tmp/mut"
 ENV = dict(os.environ, GOFLAGS="-mod=mod", GOPROXY="off", GOSUMDB="off", GOTOOLCHAIN="local", VERIF_REPO=MUT, VERIF_WORK=os.path.join(V, ".work-sweep"))
 EXTRA = {
     "C11-c": ["C05"], "C14-c": ["C18"], "C03-d": ["C11"], "C06-c": ["C05"], "C09-d": ["C12", "C15"], "C10-d": ["C17"],
-    "C12-c": ["C06"], "C12-e": ["C06"], "C15-e": ["C09"], "C09-f": ["C15"], "C11-f": ["C01", "C02"], "C14-f": ["C18"], "C04-e": ["C06"], "C04-f": ["C12"], "C01-d": ["C17", "C16"], "C15-c": ["C06"], "C15-d": ["C11"], "C12-d": ["C13"],  # other checks worth trying when the property's own check misses, or known to catch it too
+    "C12-c": ["C06"], "C14-h": ["C18"], "C14-g": ["C12"], "C17-g": ["C13", "C10"], "C13-g": ["C17"], "C13-h": ["C17", "C10"], "C04-h": ["C13", "C12"], "C11-g": ["C01", "C13"], "C11-h": ["C13"], "C02-e": ["C01", "C12"], "C02-f": ["C12"], "C03-e": ["C04"], "C03-f": ["C12"], "C08-e": ["C13"], "C20-f": ["C12"], "C12-e": ["C06"], "C15-e": ["C09"], "C09-f": ["C15"], "C11-f": ["C01", "C02"], "C14-f": ["C18"], "C04-e": ["C06"], "C04-f": ["C12"], "C01-d": ["C17", "C16"], "C15-c": ["C06"], "C15-d": ["C11"], "C12-d": ["C13"],  # other checks worth trying when the property's own check misses, or known to catch it too
     "C03-b": ["C12"], "C08-a": ["C01", "C13"], "C11-b": ["C06"], "C15-b": ["C12"], "C09-b": ["C07"], "C07-a": ["C09"],
 }
 names = sys.argv[1:] or sorted(os.path.basename(p) for p in glob.glob(V + "/seeded/C*"))
@@ -40,8 +40,13 @@ for n in names:
             msg = "race detector report" if "race-" in p.stdout else "violation"
         res[pid] = {"exit": p.returncode, "first_message": msg}
     subprocess.run("git checkout -q -- . && git clean -fdq", shell=True, cwd=MUT)
+    old = meta.get("caught_by") or {}
     meta["caught_by"] = {"repo_head": head, "tier": "quick", "results": res,
                          "caught": sorted(k for k, v in res.items() if v["exit"] == 1)}
+    if not meta["caught_by"]["caught"] and old.get("thorough"):
+        # reported by the thorough tier only (recorded by hand after running it): keep that record
+        meta["caught_by"]["thorough"] = old["thorough"]
+        meta["caught_by"]["caught"] = [c for c in old.get("caught", []) if "thorough" in c]
     json.dump(meta, open(d + "/meta.json", "w"), indent=1)
     rows.append((n, ", ".join(meta["caught_by"]["caught"]) or "MISSED", "; ".join("%s: %s" % (k, v["first_message"]) for k, v in res.items() if v["exit"] == 1)[:220]))
     print(n, meta["caught_by"]["caught"] or "MISSED", flush=True)
